@@ -1024,6 +1024,10 @@ def replay_into(case, out):
             case.get('fail_at'), case.get('fail_kind', 'oom')))
         out.count(1, 0)
         return
+    if k == 'applycase' and 'operands' not in case:
+        # a finding about the operator as a whole: sweep it again
+        return run_apply(dict(kind='apply', wrapper=case['wrapper'],
+                              ops=[case['op']], seed=1, triples=4000), out)
     M = P.Model(case['wrapper'])
     if k == 'applycase':
         def body():
